@@ -83,12 +83,14 @@ def spec_panel(work, zones, tier, verdict):
     return out, n
 
 
+# stage 2: which events of the traced test-suite run each property judges
+SUITE_KINDS = {"C01": ("Break",), "C02": ("Make",), "C11": ("Next", "Prev"), "C10": ("Break", "Make", "Next", "Prev")}
 ANCIENT = set()       # names of zones in the class of the known finding "ancient-dst-zone"
 
 
 def classify(e, names):
     z = names.get(e.get("z"), "?")
-    src = "shipped" if not z.startswith("gen/") else "generated"
+    src = "suite" if z.startswith("suite/") else "shipped" if not z.startswith("gen/") else "generated"
     if z in ANCIENT:
         src = "ancient-dst-zone"
     k = e["e"]
@@ -137,6 +139,12 @@ def run(pid, tier, seed):
     if dr.returncode != 0:
         verdict.violation("driver-crash:rc%d" % dr.returncode,
                           "the driver died (assert / sanitizer report / crash): " + dr.stderr[-600:])
+    # ---- 3. the repository's own tests as a workload (stage 2): every lookup they perform is judged too
+    sst = {}
+    if pid in SUITE_KINDS:
+        from checks import suite
+        szones, sst = suite.record(work, verdict, SUITE_KINDS[pid], cap=0 if tier == "thorough" else 150, seed=seed)
+        shards += suite.shards(work, szones, 8)
     results = V.validate_shards("ZoneTrace", "ZoneTrace.cfg", shards, timeout=3400, heap="4g")
     events = distinct = st = tr = 0
     seen = set()
@@ -180,6 +188,8 @@ def run(pid, tier, seed):
     ev = _evidence(pid, tier, seed, t0, sw, st, tr, len(shards), samples,
                    dict(events=events, distinct=distinct, zones=nship + ngen, shipped=nship, generated=ngen,
                         classes=dict(classes), spec_panel_instants=npanel), assumptions)
+    if sst:
+        ev["coverage"]["repository_test_suite_trace"] = sst
     return verdict.finish(ev)
 
 
